@@ -122,11 +122,11 @@ def shrink(case, exc):
 
 
 def run_shard(ctx):
-    n = 40 if ctx.tier == 'quick' else 800
-    ctx.set_budget(55 if ctx.tier == 'quick' else 1800)
+    n = 40 if ctx.tier == 'quick' else 3200
+    ctx.set_budget(55 if ctx.tier == 'quick' else 1100)
     explore(ctx, strategy(ctx.tier), run_one, n, shrink=shrink)
     if not ctx.stats.violations:
-        ctx.set_budget(40 if ctx.tier == 'quick' else 1500)
+        ctx.set_budget(40 if ctx.tier == 'quick' else 1100)
         exhaustive(ctx, FIXTURES, 1)
 
 
